@@ -841,11 +841,9 @@ M("C13", IA, """        return self._map_multi_children_op((expr.shiftee,
                                            ast.RShift())""", """        return self._map_multi_children_op((expr.numerator,
                                             expr.denominator),
                                            ast.RShift())""", "revert of fix 230b2a8 (right shift attributes)")
-M("C13", IA, """        elif isinstance(expr, (int, float)) and expr < 0:
-            # ast.unparse prints Constant(-2) as '-2', which binds weaker
-            # than '**' in source: Power(-2, x) must not become '-2 ** x'.
-            return ast.UnaryOp(ast.USub(), ast.Constant(-expr, None))""", """        elif False:
-            return ast.UnaryOp(ast.USub(), ast.Constant(-expr, None))""", "revert of fix c786cc1 (negative constants)")
+M("C13", IA, """        elif ((isinstance(expr, (int, float)) and expr < 0)
+                or (isinstance(expr, (float, complex))
+                    and repr(expr).startswith("-"))):""", """        elif False:""", "revert of fix c786cc1 (negative constants)")
 M("C13", IA, """    dep_mapper = CachedDependencyMapper(composite_leaves=False)""", """    dep_mapper = CachedDependencyMapper(composite_leaves=True)""", "revert of fix 4d8ac06 (composite leaves)")
 M("C13", CM, """        used_variables.sort(key=lambda var: var.name)""", """        used_variables.sort()""", "revert of fix bb03683 (unorderable variables)")
 M("C13", CM, """        if not (result.startswith("(") and result.endswith(")")) \\
